@@ -2,7 +2,7 @@
 import itertools
 from .family import Family
 
-PROPS_MODULES = ["C14"]
+PROPS_MODULES = ["C14", "HandlerOps"]
 RULE = ("family `vq`: a real VhostUserDaemon (RecordingBackend behind the crate's Mutex / RwLock adapters, 1..4 rings, "
         "max_queue_size 1..32768, arbitrary offered feature and protocol-feature masks) is driven by an independent raw "
         "vhost-user peer with SET_VRING_NUM / ADDR / BASE, GET_VRING_BASE, SET_VRING_KICK / CALL / ERR (raw u64 payloads), "
